@@ -1128,8 +1128,22 @@ impl<T: Transport, Env: UtpEnvironment> VirtualSocket<T, Env> {
                 self.state = Established;
             }
             (SynAckSent { .. }, ST_FIN) => {
-                trace!("state: syn-ack-sent -> closed");
-                self.state = Closed;
+                // Like any other first packet the FIN must acknowledge our SYN-ACK, and like any
+                // other FIN it must be in sequence: if data was sent before it, that data is
+                // still on its way (or lost) and closing now would acknowledge it unseen.
+                if hdr.ack_nr != self.seq_nr - 1
+                    || hdr.seq_nr != self.last_consumed_remote_seq_nr + 1
+                {
+                    trace!("dropping FIN in syn-ack-sent: wrong ack_nr or out of sequence");
+                    return Ok(Default::default());
+                }
+                trace!("state: syn-ack-sent -> last-ack");
+                let our_fin = self.seq_nr;
+                self.seq_nr += 1;
+                self.state = LastAck {
+                    our_fin,
+                    remote_fin: hdr.seq_nr,
+                }
             }
 
             (Established, ST_DATA | ST_STATE) => {}
